@@ -91,6 +91,32 @@ def step (_ : Unit) (ws : List String) : Unit × String :=
     match ini.toNat?, pieces.mapM bytesOfHex with
     | some i, some ps => let r := (crc64Ref ps.flatten (BitVec.ofNat 64 i)).toNat; ((), s!"{r} {r} {r}")
     | _, _ => ((), "bad-op")
+  -- batch sweep op of the configuration harnesses: generic entry, arch entry, public, public over two pieces
+  | ["cfga32", _, ini, hx] =>
+    match ini.toNat?, bytesOfHex hx with
+    | some i, some bs => let r := (crc32Ref bs (BitVec.ofNat 32 i)).toNat; ((), s!"{r} {r} {r} {r}")
+    | _, _ => ((), "bad-op")
+  | ["cfga64", _, ini, hx] =>
+    match ini.toNat?, bytesOfHex hx with
+    | some i, some bs => let r := (crc64Ref bs (BitVec.ofNat 64 i)).toNat; ((), s!"{r} {r} {r} {r}")
+    | _, _ => ((), "bad-op")
+  -- buffer ending at a page end (harness places it there): address mod 8 = (-size) mod 8 for the generic model
+  | ["crc32g", ini, hx] =>
+    match ini.toNat?, bytesOfHex hx with
+    | some i, some bs =>
+      let r := (crc32Ref bs (BitVec.ofNat 32 i)).toNat
+      let g := (crc32Generic Gen.C14.crc32Table ((8 - bs.length % 8) % 8) bs (BitVec.ofNat 32 i)).toNat
+      let c := if Gen.C14.clmul32.isEmpty then r else (Clmul.crc32Clmul clmulP32 bs (BitVec.ofNat 32 i)).toNat
+      ((), s!"{g} {c} {r}")
+    | _, _ => ((), "bad-op")
+  | ["crc64g", ini, hx] =>
+    match ini.toNat?, bytesOfHex hx with
+    | some i, some bs =>
+      let r := (crc64Ref bs (BitVec.ofNat 64 i)).toNat
+      let g := (crc64Generic Gen.C14.crc64Table ((8 - bs.length % 8) % 8) bs (BitVec.ofNat 64 i)).toNat
+      let c := if Gen.C14.clmul64.isEmpty then r else (Clmul.crc64Clmul clmulP64 bs (BitVec.ofNat 64 i)).toNat
+      ((), s!"{g} {c} {r}")
+    | _, _ => ((), "bad-op")
   | ["small32", ini, hx] =>
     match ini.toNat?, bytesOfHex hx with
     | some i, some bs => ((), s!"{(crcSmall P32 bs (BitVec.ofNat 32 i)).toNat}")
